@@ -24,7 +24,7 @@ for d in sorted(glob.glob(os.path.join(root, 'C*', '[0-9]*'))):
     try:
         props = [pid]
         for p in props:
-            for tier in ('quick', 'thorough'):
+            for tier in (('quick',) if os.environ.get('EVAL_QUICK_ONLY') else ('quick', 'thorough')):
                 r = sh('./check', p, '--tier', tier, cwd=VERIF, env=ENV)
                 v = [l.split('#')[-1].strip() for l in r.stdout.splitlines() if l.startswith('VIOLATION')]
                 res[p + ':' + tier] = {'exit': r.returncode, 'violations': v[:4]}
